@@ -382,3 +382,17 @@ PROPS["C20"]["quick"].append({"variant": "explanations", "cases": 160, "params":
 PROPS["C20"]["quick"].append({"variant": "explanations", "cases": 640, "params": {"processes": 0}, "timeout": 900})
 PROPS["C20"]["thorough"].append({"variant": "explanations", "cases": 2000, "params": {"processes": 3}, "timeout": 3400})
 PROPS["C20"]["floors"]["any"]["explanations_rendered"] = 300
+
+# C02 beyond the reach of the ground closure (five to eight names per term, nodes with two or three children over one class): one- and
+# two-step consequences of the asserted equations, known by construction, inserted and compared (harness/src/props/wide.rs)
+PROPS["C02"]["quick"].append({"variant": "default", "cases": 30000, "worker_prop": "C02wide", "timeout": 600})
+PROPS["C02"]["quick"].append({"variant": "explanations", "cases": 8000, "worker_prop": "C02wide", "timeout": 600})
+PROPS["C02"]["thorough"].append({"variant": "default", "cases": 800000, "worker_prop": "C02wide", "timeout": 3000})
+PROPS["C02"]["thorough"].append({"variant": "checks", "cases": 100000, "worker_prop": "C02wide", "timeout": 3000})
+PROPS["C02"]["floors"]["any"].update({"wide_consequences_judged": 100000, "wide_histories_with_five_or_more_names": 5000})
+
+# C09 in the same regime: the consequence terms are represented (equal through earlier unions of subterms): lookup finds them, inserting
+# them allocates nothing, lookup agrees with insertion
+PROPS["C09"]["quick"].append({"variant": "default", "cases": 20000, "worker_prop": "C09wide", "timeout": 600})
+PROPS["C09"]["thorough"].append({"variant": "default", "cases": 600000, "worker_prop": "C09wide", "timeout": 3000})
+PROPS["C09"]["floors"]["any"]["wide_known_terms_reinserted"] = 50000
